@@ -233,3 +233,23 @@ Definition spec_sequence_equal2 (l : list (nat * ev)) : option (list ev) :=     
   else if mismatch a b then Some [Nx (VBool false); Co]
   else if ac then Some [Nx (VBool (lists_eqb a b)); Co]
   else None.
+
+(* flat_map over hot sources (specification only; decided by the oracle, no operator theorem): source 0 is the outer stream,
+   an outer item x subscribes the inner source sel x (one of the sources 1..n-1) from that moment on; every inner subscription
+   forwards the items of its source; complete when the outer and every inner subscription have completed; first error wins. *)
+Fixpoint spec_flat_map (sel : val -> nat) (outer_live : bool) (inner : list nat) (closed : list nat) (l : list (nat * ev)) : list ev :=
+  match l with
+  | [] => []
+  | (j, e) :: r =>
+      match j, e with
+      | 0, Nx x => if outer_live then spec_flat_map sel outer_live (inner ++ [sel x]) closed r else spec_flat_map sel outer_live inner closed r
+      | 0, Er x => if outer_live then [Er x] else spec_flat_map sel outer_live inner closed r
+      | 0, Co => if outer_live then (match inner with [] => [Co] | _ => spec_flat_map sel false inner closed r end)
+                 else spec_flat_map sel outer_live inner closed r
+      | _, Nx v => map (fun _ => Nx v) (filter (Nat.eqb j) inner) ++ spec_flat_map sel outer_live inner closed r
+      | _, Er x => if memb j inner then [Er x] else spec_flat_map sel outer_live inner closed r     (* a plain Subject forgets its terminal: later subscribers are served again *)
+      | _, Co => let inner' := filter (fun i => negb (Nat.eqb i j)) inner in
+                 if memb j inner && negb outer_live && match inner' with [] => true | _ => false end then [Co]
+                 else spec_flat_map sel outer_live inner' closed r
+      end
+  end.
